@@ -41,7 +41,8 @@ pub enum Motif {
         /// 0 free king, 1 king on the victim's rank + enemy R/Q on the far side, 2 king on a
         /// diagonal through the victim, slider behind, 3 king on the capturer's file with a
         /// rook beyond, 4 victim pawn gives check, 5 slider checks through the vacated origin,
-        /// 6 king on a diagonal through the capturer
+        /// 6 king on a diagonal through the capturer, 7 THEIR king on a diagonal through the victim
+        /// with OUR slider behind (capture discovers a check), 8 the same along the victim's rank
         king_mode: u8,
         a: u8,
         b: u8,
@@ -335,8 +336,24 @@ fn apply_motif(b: &mut Builder, m: &Motif, h: &mut Hints) {
             neighbour(b, 1, *right);
             let (a, bb, c) = (*a as i32, *bb as i32, *c as i32);
             let fwd_them = them.fwd();
-            match king_mode % 7 {
+            match king_mode % 9 {
                 0 => {}
+                7 => {
+                    // THEIR king and OUR bishop/queen on a diagonal through the victim: the capture
+                    // removes the victim and discovers a check on their king
+                    let (df, dr) = [(1, 1), (1, -1), (-1, -1), (-1, 1)][a as usize % 4];
+                    let dk = 1 + bb % 4;
+                    let ds = 1 + c % 4;
+                    b.put(f + df * dk, r4 + dr * dk, Kind::K, them);
+                    b.put(f - df * ds, r4 - dr * ds, if a % 8 < 4 { Kind::B } else { Kind::Q }, us);
+                }
+                8 => {
+                    // THEIR king and OUR rook/queen on the victim's rank: capturer and victim both
+                    // leave the rank, discovering a check on their king
+                    let kside = if a % 2 == 0 { -1 } else { 1 };
+                    b.put(f + kside * (2 + bb % 5), r4, Kind::K, them);
+                    b.put(f - kside * (2 + c % 5), r4, if a % 4 < 2 { Kind::R } else { Kind::Q }, us);
+                }
                 1 => {
                     // king on the victim's rank, enemy rook/queen on the other side
                     let kside = if a % 2 == 0 { -1 } else { 1 };
@@ -762,7 +779,7 @@ fn arb_motif() -> impl Strategy<Value = Motif> {
         3 => Just(Motif::None),
         3 => (any::<bool>(), 0u8..6, any::<u8>(), any::<u8>(), vec((any::<u8>(), 0u8..8, 0u8..7, any::<u8>()), 0..4), vec((0u8..8, any::<u8>(), any::<bool>()), 0..3))
             .prop_map(|(black, kf, short_sel, long_sel, attackers, blockers)| Motif::Castle { black, kf, short_sel, long_sel, attackers, blockers }),
-        3 => (any::<bool>(), 0u8..8, 0u8..9, 0u8..9, 0u8..7, any::<u8>(), any::<u8>(), any::<u8>())
+        3 => (any::<bool>(), 0u8..8, 0u8..9, 0u8..9, 0u8..9, any::<u8>(), any::<u8>(), any::<u8>())
             .prop_map(|(black_mover, file, left, right, king_mode, a, b, c)| Motif::Ep { black_mover, file, left, right, king_mode, a, b, c }),
         3 => (any::<bool>(), 0u8..64, vec((0u8..8, 0u8..6, 0u8..7, vec((0u8..6, 0u8..8, any::<bool>()), 0..3)), 1..5), proptest::option::weighted(0.3, 0u8..8), proptest::option::weighted(0.25, 0u8..2))
             .prop_map(|(black, ksq, rays, knight, pawn)| Motif::Pins { black, ksq, rays, knight, pawn }),
@@ -882,6 +899,13 @@ pub fn arb_case(w_dfrc: u32, w_seed: u32, w_built: u32, max_ops: usize) -> impl 
                     // play a double push first (selector taken from the generated data so it shrinks with it)
                     let sel = ing.fm_raw.wrapping_mul(40503);
                     ops.insert(0, Op::Move { sel, bias: 5 });
+                }
+                if let Motif::Ep { king_mode, .. } = &ing.motif {
+                    // capture en passant first when that is what the motif is about (always for the
+                    // discovered-check modes, half of the time otherwise)
+                    if king_mode % 9 >= 7 || ing.ep_sel & 16 != 0 {
+                        ops.insert(0, Op::Move { sel: ing.fm_raw.wrapping_mul(40503), bias: 4 });
+                    }
                 }
                 if matches!(ing.motif, Motif::Battery { .. } | Motif::BatteryStalemate { .. }) {
                     ops.insert(0, Op::Null);
